@@ -419,6 +419,8 @@ def check_shift(ctx, rep):
 
 
 def run(ctx, rep):
+    from sa import callbind
+    callbind.run_for(ctx, rep, 'C06', 8)
     rep.explanation = (
         "C06.D: in every class whose constructor chooses an attribute among several constructor calls, stores to that attribute elsewhere must not "
         "install a fixed member of the set (the ratio/shift parameterisation must survive cuda()/cpu()).  C06.R: writer/reader layout check of the "
